@@ -146,7 +146,7 @@ package service
 //@   modifies nothing
 
 //@ func TxPool.MarkExecuted
-//@   property C17
+//@   property C17 C05
 //@   requires pool != nil && header != nil && pool.received != nil && pool.evictedTxs != nil && typeid(pool.executed) != 0 && typeid(pool.batch) != 0 && txPoolLogger != nil
 //@   requires [io!init] ioReliable()
 //@   requires [batch]   @select(ghost(btarget), ref(pool.batch)) == ref(pool.executed) && @select(ghost(bsize), ref(pool.batch)) == 0 && forall k Bytes :: !@select(@select(ghost(bpend), ref(pool.batch)), k)
@@ -475,7 +475,7 @@ package service
 //@   modifies ghost(mstake), ghost(mrec), ghost(stver)
 
 //@ func MinerManager.AddStake
-//@   property C20
+//@   property C20 C06
 //@   option intmode=math
 //@   requires mm != nil && mm.logger != nil && accountdb != nil
 //@   requires [wf]     forall a common.Address :: balOf(a) >= 0
@@ -491,7 +491,7 @@ package service
 // covers the stake, an unused id and an account that controls no other miner (in either registry, whatever the
 // status of that miner); a rejected application changes nothing.
 //@ func MinerManager.AddMiner
-//@   property C20
+//@   property C20 C06
 //@   option intmode=math
 //@   requires mm != nil && mm.logger != nil && mm.pkCache != nil && accountdb != nil && miner != nil
 //@   requires seqLen(regSeq(common.MinerTypeValidator)) >= 0 && seqLen(regSeq(common.MinerTypeProposer)) >= 0
@@ -518,7 +518,7 @@ package service
 //@   modifies nothing
 
 //@ func RefundManager.GetRefundStake
-//@   property C20
+//@   property C20 C06
 //@   option intmode=math
 //@   requires [singletons!init] this != nil && this.logger != nil && MinerManagerImpl != nil && MinerManagerImpl.logger != nil
 //@   requires [wf!init] forall k Bytes :: @select(ghost(mstake), k) >= 0
